@@ -18,7 +18,7 @@ def jobs(rng, thorough):
 
 
 def run(ctx: core.Ctx):
-    ctx.lean_stage(extra_props=("C17x",))
+    ctx.lean_stage(extra_props=("C17x", "Tie"))
     b2check.run_b2(ctx, jobs, ["C17"], label="connection check")
     b2check.run_b2(ctx, lambda rng, th: [(gen.conn_check(rng, drops=True, repeat=True), rng.randrange(10 ** 9), 0) for _ in range(8000 if th else 150)],
                    ["C17"], label="connection_check() run twice on the same YncaApi object (the second run is judged), monitor only", accept=False)
